@@ -27,6 +27,13 @@ CLAIMED = {
                      "snapshot/clear/call, self-removing teardown) gives every observer exactly the events issued while it was registered and holds exactly the registered observers; "
                      "C10_replay_history_complete / C10_behavior_latest: the history cells always hold what was pushed. Partial: the hand-over of Behavior/Replay/AsyncSubject to a late "
                      "joiner is proved at the level of the history cells and otherwise decided by the reference-machine oracle applied to the implementation on all short histories."),
+    "C19": dict(engine="coq-conc", design="DESIGN.md 6 C19",
+                technique="machine-checked proof in Coq (invariant of a transition system at critical-section granularity, for any number of threads, any call lists, any interleaving) + correspondence under a deterministic scheduling runtime (exhaustive DFS / random / PCT schedules; implementation log set within the model's explored log set)",
+                text="Theorems C19_at_most_one_terminal / C19_nothing_started_after_terminal_returned / C19_slots_empty_after_terminal: in the gate model of Observer "
+                     "(one step per lock-protected critical section, callback start and return separate) any number of threads issuing any lists of next/error/complete/unsubscribe "
+                     "under any interleaving start at most one terminal callback and no callback for a call begun after a terminal callback returned. Because every delivery to a subscriber is such a call, "
+                     "this covers merge/flat_map/zip/amb, trigger operators and subjects. Tie: the real crate runs under the scheduling runtime (every lock operation a scheduling point); the extracted "
+                     "oracle judges every observed schedule, and for the raw-observer family the implementation's exhaustively enumerated logs must lie in the model's exhaustively explored log set."),
 }
 
 NOT_YET = "check under construction in this round (not yet registered)"
